@@ -139,6 +139,12 @@ class C14(Check):
                  'under PYTHONHASHSEED 0/1/2')
     rule = ('set layers: one case per (example set, option point), all n! '
             'orders + dict/zero-count dict/Series/categorical/two-Series forms '
+            '+ bytes+encoding list and dict forms + (default options) every '
+            'pandas form: object, str and string dtype, non-default integer '
+            'and string index, categorical with categories == values, with '
+            'one unused category first, two unused last (ordered), after '
+            'row selection (object and categorical), two-Series lists '
+            'incl. a categorical with an unused category '
             '+ each element repeated x2, x3 + all doubled + repeated call + '
             'call after an unrelated call in a pristine module + seeded calls '
             'from two generator pre-states, non-trivial = at least two distinct examples and a '
@@ -397,6 +403,7 @@ class C14(Check):
 
         GROUP = {'perm': 'order', 'dict': 'form', 'series': 'form',
                  'categorical': 'form', 'two-series': 'form',
+                 'bytes-list': 'form', 'bytes-dict': 'form',
                  'repeat-list': 'repeat', 'repeat-dict': 'repeat'}
 
         def cmp(family, got, inp, reordered_input=False):
@@ -404,7 +411,12 @@ class C14(Check):
             if got != base:
                 R.out('differs:%s' % family)
                 group = GROUP.get(family, family)
-                if reordered_input and group == 'form':
+                if family.startswith('pandas:'):
+                    group = 'form:' + family
+                    if 'unused' in family or 'categorical-row' in family \
+                            or family.endswith('two-series-categorical'):
+                        group = 'form:pandas:categorical-unused-categories'
+                elif reordered_input and group == 'form':
                     group = 'order'
                 kind = ('reordered' if sorted(map(str, got))
                         == sorted(map(str, base)) else 'different')
@@ -438,22 +450,16 @@ class C14(Check):
             cmp('repeat-list', self.ex(inp, opts), inp)
             d = dict(zip(xs, v))
             cmp('repeat-dict', self.ex(d, opts), {'dict': d})
+        # bytes + encoding forms of the same strings (every option point)
+        enc = [x.encode('utf-8') for x in xs]
+        cmp('bytes-list', self.ex(list(enc), opts, encoding='utf-8'),
+            {'bytes, encoding=utf-8': xs})
+        cmp('bytes-dict', self.ex(dict((b, 2) for b in reversed(enc)), opts,
+                                  encoding='utf-8'),
+            {'bytes dict x2, reversed, encoding=utf-8': xs}, True)
         if o == 0:
-            pdx = self.rexpy.pdextract
-            for inp in orders:
-                col = inp[:1] + [None] + inp[1:] + inp[:1]
-                s = pd.Series(col, dtype=object)
-                cmp('series', self.call(pdx, s), {'series': col},
-                    inp != list(xs))
-            if n:
-                s = pd.Series(pd.Categorical(list(xs) + list(xs[:1])))
-                cmp('categorical', self.call(pdx, s), {'categorical': xs})
-            h = (n + 1) // 2
-            cols = [pd.Series(list(xs[:h]) + [None], dtype=object),
-                    pd.Series(list(xs[h:]) + list(xs[:1]), dtype=object)]
-            cmp('two-series', self.call(pdx, cols),
-                {'series': [list(xs[:h]) + [None],
-                            list(xs[h:]) + list(xs[:1])]})
+            for label, cols, desc, reord in self.pandas_forms(xs):
+                cmp(label, self.call(self.rexpy.pdextract, cols), desc, reord)
         # an unrelated call with other options made first, in a pristine
         # module instance, changes nothing
         keep = self.rexpy
@@ -488,6 +494,69 @@ class C14(Check):
                     'after random.seed(100)': seeded[0],
                     'after random.seed(200)': seeded[1]}, 'seeded')
         return R
+
+    def pandas_forms(self, xs):
+        """(label, argument for pdextract, description, reordered?) for every
+        pandas form of the strings xs; all must agree with extract(list(xs)).
+        Unused categories / deselected rows hold strings that are NOT
+        supplied."""
+        pd = self.pd
+        n = len(xs)
+        xs = list(xs)
+        rev = xs[::-1]
+        extras = [e for e in ('n/a', 'Q 9_', '~~', 'zz9') if e not in xs][:2]
+        out = []
+
+        def add(label, cols, desc, reord=False):
+            out.append(('pandas:' + label, cols, desc, reord))
+
+        for inp in ([xs] + ([rev] if n > 1 else [])):
+            col = inp[:1] + [None] + inp[1:] + inp[:1]
+            add('object', pd.Series(col, dtype=object), {'object': col},
+                inp != xs)
+        add('str-dtype', pd.Series(xs + xs[:1], dtype='str'),
+            {'dtype str': xs + xs[:1]})
+        add('string-dtype', pd.Series(xs + [None], dtype='string'),
+            {'dtype string': xs + [None]})
+        add('index', pd.Series(xs + [None], dtype=object,
+                               index=[100 - 7 * i for i in range(n + 1)]),
+            {'object, index 100,93,..': xs + [None]})
+        add('str-index', pd.Series(rev, dtype=object,
+                                   index=['r%d' % i for i in range(n)]),
+            {'object, string index': rev}, n > 1)
+        if n:
+            add('categorical', pd.Series(pd.Categorical(xs + xs[:1])),
+                {'categorical': xs + xs[:1]})
+            add('categorical-unused-first',
+                pd.Series(pd.Categorical(xs, categories=extras[:1] + xs)),
+                {'categorical': xs, 'categories': extras[:1] + xs})
+            add('categorical-unused-last-ordered',
+                pd.Series(pd.Categorical(rev + [None],
+                                         categories=xs + extras,
+                                         ordered=True)),
+                {'categorical ordered': rev + [None],
+                 'categories': xs + extras}, n > 1)
+            full = pd.Series(pd.Categorical([extras[0]] + xs + [extras[1]]))
+            add('categorical-row-selection', full[1:n + 1],
+                {'categorical': [extras[0]] + xs + [extras[1]],
+                 'selected rows': '1..%d' % n})
+        obj = pd.Series([extras[0]] + xs + [None, extras[1]], dtype=object)
+        mask = [False] + [True] * n + [True, False]
+        add('object-row-selection', obj[mask],
+            {'object': [extras[0]] + xs + [None, extras[1]],
+             'mask': mask})
+        h = (n + 1) // 2
+        add('two-series', [pd.Series(xs[:h] + [None], dtype=object),
+                           pd.Series(xs[h:] + xs[:1], dtype=object)],
+            {'series': [xs[:h] + [None], xs[h:] + xs[:1]]})
+        if n:
+            add('two-series-categorical',
+                [pd.Series(xs[:h], dtype=object),
+                 pd.Series(pd.Categorical(xs[h:] + xs[:1],
+                                          categories=xs + extras[:1]))],
+                {'series': [xs[:h], {'categorical': xs[h:] + xs[:1],
+                                     'categories': xs + extras[:1]}]})
+        return out
 
     # ------------------------------------------------------------ (b) E3
     def op_run(self, op):
